@@ -766,8 +766,24 @@ func (p *proxy) forwardProduce(ctx context.Context, header *protocol.RequestHead
 			if r.conn != nil {
 				pool.Return(r.target, r.conn)
 			}
+			// Only partitions this broker was asked about count, each once; a
+			// partition the broker did not answer is reported as timed out.
+			pending := make(map[string]map[int32]bool, len(r.subReq.Topics))
+			for _, topic := range r.subReq.Topics {
+				if pending[topic.Topic] == nil {
+					pending[topic.Topic] = make(map[int32]bool, len(topic.Partitions))
+				}
+				for _, part := range topic.Partitions {
+					pending[topic.Topic][part.Partition] = true
+				}
+			}
 			for _, topic := range r.subResp.Topics {
 				for _, part := range topic.Partitions {
+					if !pending[topic.Topic][part.Partition] {
+						p.logger.Warn("produce response names an unexpected partition", "target", r.target, "topic", topic.Topic, "partition", part.Partition)
+						continue
+					}
+					delete(pending[topic.Topic], part.Partition)
 					if part.ErrorCode == protocol.NOT_LEADER_OR_FOLLOWER {
 						if failedPartitions == nil {
 							failedPartitions = make(map[string]map[int32]bool)
@@ -782,6 +798,19 @@ func (p *proxy) forwardProduce(ctx context.Context, header *protocol.RequestHead
 					} else {
 						tr := findOrAddTopicResponse(merged, topic.Topic)
 						tr.Partitions = append(tr.Partitions, part)
+					}
+				}
+			}
+			for _, topic := range r.subReq.Topics {
+				for _, part := range topic.Partitions {
+					if pending[topic.Topic][part.Partition] {
+						delete(pending[topic.Topic], part.Partition)
+						tr := findOrAddTopicResponse(merged, topic.Topic)
+						tr.Partitions = append(tr.Partitions, kmsg.ProduceResponseTopicPartition{
+							Partition:  part.Partition,
+							ErrorCode:  protocol.REQUEST_TIMED_OUT,
+							BaseOffset: -1,
+						})
 					}
 				}
 			}
@@ -1749,14 +1778,47 @@ func (p *proxy) forwardFetch(ctx context.Context, header *protocol.RequestHeader
 			if r.subResp.ErrorCode != 0 {
 				merged.ErrorCode = r.subResp.ErrorCode
 			}
-			for _, topic := range r.subResp.Topics {
+			// Match the response against the sub-request: the key and name of a
+			// topic are the ones the request was grouped under (not a fresh
+			// lookup, which may have changed meanwhile), only partitions this
+			// broker was asked about count, each once, and a partition it did
+			// not answer is reported as timed out.
+			byID := header.APIVersion >= 13 // v13+ carries topic ids only
+			type askedTopic struct {
+				key, name string
+				id        [16]byte
+				pending   map[int32]bool
+			}
+			asked := make([]*askedTopic, 0, len(r.subReq.Topics))
+			findAsked := func(name string, id [16]byte) *askedTopic {
+				for _, at := range asked {
+					if (byID && at.id == id) || (!byID && at.name == name) {
+						return at
+					}
+				}
+				return nil
+			}
+			for _, topic := range r.subReq.Topics {
+				at := findAsked(topic.Topic, topic.TopicID)
+				if at == nil {
+					at = &askedTopic{key: fetchTopicKey(topic.Topic, topic.TopicID), name: topic.Topic, id: topic.TopicID, pending: make(map[int32]bool)}
+					asked = append(asked, at)
+				}
 				for _, part := range topic.Partitions {
+					at.pending[part.Partition] = true
+				}
+			}
+			for _, topic := range r.subResp.Topics {
+				at := findAsked(topic.Topic, topic.TopicID)
+				for _, part := range topic.Partitions {
+					if at == nil || !at.pending[part.Partition] {
+						p.logger.Warn("fetch response names an unexpected partition", "target", r.target, "topic", topic.Topic, "partition", part.Partition)
+						continue
+					}
+					delete(at.pending, part.Partition)
 					if part.ErrorCode == protocol.NOT_LEADER_OR_FOLLOWER {
-						topicName := topic.Topic
-						if topicName == "" {
-							topicName = p.resolveTopicID(ctx, topic.TopicID)
-						}
-						key := fetchTopicKey(topicName, topic.TopicID)
+						topicName := at.name
+						key := at.key
 						if failedPartitions == nil {
 							failedPartitions = make(map[string]map[int32]bool)
 						}
@@ -1771,6 +1833,15 @@ func (p *proxy) forwardFetch(ctx context.Context, header *protocol.RequestHeader
 						tr := findOrAddFetchTopicResponse(merged, topic.Topic, topic.TopicID)
 						tr.Partitions = append(tr.Partitions, part)
 					}
+				}
+			}
+			for _, at := range asked {
+				for partition := range at.pending {
+					tr := findOrAddFetchTopicResponse(merged, at.name, at.id)
+					tr.Partitions = append(tr.Partitions, kmsg.FetchResponseTopicPartition{
+						Partition: partition,
+						ErrorCode: protocol.REQUEST_TIMED_OUT,
+					})
 				}
 			}
 			if r.subResp.ThrottleMillis > merged.ThrottleMillis {
